@@ -246,3 +246,105 @@ def treewidth(adj):
                 best = min(best, max(TW[S2], q(S2, v)))
             TW[S] = best
     return TW[full]
+
+
+# ---------------------------------------------------------------------------------------------
+# exact gradients: forward-mode with sparse gradient dictionaries over weight entries
+
+class G:
+    """value + sparse gradient (dict entry -> number). Entries: (terminal, index tuple)."""
+    __slots__ = ('v', 'd')
+
+    def __init__(self, v, d=None):
+        self.v = v
+        self.d = d or {}
+
+    def __add__(self, o):
+        d = dict(self.d)
+        for k, x in o.d.items():
+            d[k] = d.get(k, 0) + x
+        return G(self.v + o.v, d)
+
+    def __mul__(self, o):
+        d = {}
+        if o.v != 0:
+            for k, x in self.d.items():
+                d[k] = x * o.v
+        if self.v != 0:
+            for k, x in o.d.items():
+                d[k] = d.get(k, 0) + x * self.v
+        return G(self.v * o.v, d)
+
+
+def grad_step(ir, val, wg, zero, one, nts=None):
+    new = {}
+    for nt in (nts if nts is not None else ir['nt']):
+        shape = ext_shape(ir, nt)
+        v = {ea: G(zero) for ea in all_assts(shape)}
+        for rule in ir['rules']:
+            if rule[0] != nt:
+                continue
+            lhs, labs, ext, edges = rule
+            n = len(labs)
+            free = [i for i in range(n) if i not in ext]
+            for ea in v:
+                for ia in itertools.product(*[range(ir['nl'][labs[i]]) for i in free]):
+                    a = [None] * n
+                    for vv, x in zip(ext, ea):
+                        a[vv] = x
+                    for vv, x in zip(free, ia):
+                        a[vv] = x
+                    p = G(one)
+                    for lab, att in edges:
+                        idx = tuple(a[i] for i in att)
+                        x = get_entry(wg[lab], idx) if lab in ir['term'] else val[lab][idx]
+                        p = p * x
+                    v[ea] = v[ea] + p
+        new[nt] = v
+    return new
+
+
+def weights_as_G(ir, w, conv=lambda x: x):
+    from mc.ir import nested, weight_shape
+    one = conv(Fraction(1))
+    return {name: nested(weight_shape(ir, name), lambda idx, name=name: G(conv(get_entry(w[name], idx)), {(name, idx): one}))
+            for name in ir['term']}
+
+
+def grad_nonrec(ir, w):
+    """Exact dZ/dw for every nonterminal entry and weight entry of a non-recursive IR (finite weights)."""
+    wg = weights_as_G(ir, w)
+    val = {}
+    for nt in topo_nts(ir):
+        val.update(grad_step(ir, val, wg, Fraction(0), Fraction(1), [nt]))
+    return val
+
+
+def grad_kleene_mp(ir, w, digits=40, max_iter=4000, eps_exp=-25):
+    """Value and gradient of the least fixed point by forward-mode Kleene iteration in mpmath.
+    Returns val (dict nt -> ea -> G with mpf entries) or None when not converged."""
+    import mpmath
+    mp = mpmath.mp
+    mp.dps = digits
+    mpf = mp.mpf
+
+    def conv(x):
+        return mpf(x.numerator) / mpf(x.denominator)
+    wg = weights_as_G(ir, w, conv)
+    val = {nt: {ea: G(mpf(0)) for ea in all_assts(ext_shape(ir, nt))} for nt in ir['nt']}
+    eps = mpf(10) ** eps_exp
+    for k in range(max_iter):
+        new = grad_step(ir, val, wg, mpf(0), mpf(1))
+        inc = mpf(0)
+        for nt in new:
+            for ea in new[nt]:
+                a, b = new[nt][ea], val[nt][ea]
+                inc = max(inc, abs(a.v - b.v))
+                for kk in set(a.d) | set(b.d):
+                    inc = max(inc, abs(a.d.get(kk, 0) - b.d.get(kk, 0)))
+                if a.v > mpf(10) ** 20:
+                    return None
+        val = new
+        if inc < eps:
+            return val
+    return None
